@@ -61,7 +61,7 @@ pub fn run_once(prop: &str, tier: Tier, tape: Tape, trace: bool) -> RunOutput {
             violation: None,
             foreign: None,
             harness_error: None,
-            hash: s.hash,
+            hash: s.hash ^ s.hash_unordered.rotate_left(17),
             steps: s.steps,
             nontrivial: s.nontrivial,
             counters: std::mem::take(&mut s.counters),
